@@ -271,6 +271,8 @@ class Interp:
             if f is None:
                 raise Unsupported("no impl %s for %s" % (tr, a.ty))
             return self.call_item(f[2], a.ty, [a, b], f[0], memo)
+        if op in ("==", "!=") and isinstance(a, (bytes, list)) and isinstance(b, (bytes, list)) and type(a) is not type(b):
+            a, b = list(a), list(b)            # byte-string literal (bytes) against a byte slice (list of ints): compare the elements
         if op == "==":
             return a == b
         if op == "!=":
@@ -347,6 +349,8 @@ class Interp:
             return True
         if k == "lit":
             lv = self._pat_bound(p["e"])
+            if isinstance(lv, bytes) and isinstance(v, list):
+                return list(lv) == v           # `b"i" => ..` against a byte slice
             return lv == v and isinstance(v, bool) == isinstance(lv, bool)
         if k == "range":
             lo = self._pat_bound(p["lo"]) if p.get("lo") else None
@@ -1443,6 +1447,11 @@ class StdInterp(Interp):
             if all(x is None or _isnum(x) for x in (lo, hi)) and _isnum(v):
                 return (lo is None or lo <= v) and (hi is None or (v <= hi if r0["incl"] else v < hi))
             raise Unsupported("range contains on non-numbers")
+        if ((m == "replace" and len(args_e) == 1) or (m == "take" and not args_e)) and r0.get("k") in ("path", "field"):
+            cur = self.place(r0, fr)             # Option::replace / Option::take on a local or a field: store the new value, yield the old one
+            if isinstance(cur, tuple) and not isinstance(cur, EnumV) and cur[:1] in (("Some",), ("None",)) and len(cur) == (2 if cur[0] == "Some" else 1):
+                self.store(r0, fr, some(self.eval(args_e[0], fr)) if m == "replace" else NONE)
+                return cur
         recv = self.place(r0, fr)
         ty = recv.ty if isinstance(recv, (StructV, EnumV)) else None
         if ty is not None and ty != "Ordering":
